@@ -17,8 +17,10 @@ sequential result as the oracle of a threaded run) and, where cheap, tied to the
      object, calls that raise (also inside `with`), the caller mutating a previously returned container or a
      previously passed argument, functions that capture module-level lists and write / return them) in which
      EVERY re-evaluation of a unit must reproduce its R0 (canonical by value incl. sign of zero) and must not
-     share a list object with an earlier result.  The F7/F8 programs are additionally predicted by the Lean
-     boundary model (`boundary` op).
+     share a list object with an earlier result.  The programs of the repaired findings F7 (a write into a
+     captured list used to survive the call) and F8 (a returned captured list used to be the interpreter's own
+     object) stay in the corpus as regression inputs and are additionally predicted by the Lean boundary
+     model (`boundary` op).  No known finding is listed for C18: every violation is `finding: None`.
  (C) REENTRANCY  4–8 threads evaluating functions under different contexts / rounding modes (MPFR paths:
      div, sqrt, exp with non-dyadic results; `with` blocks switching precision) with
      `sys.setswitchinterval(1e-6)` and barriers, warm and cold compiled-function cache; every result is
@@ -257,8 +259,8 @@ def isolation_check(rep, label, src, fn, args, cs, kind, lines, meta):
             rep.count('A:export-error:' + type(e).__name__)
 
 def part_a(rep, R, tier, tmp):
-    nprog = 30 if tier == 'quick' else 400
-    nstruct = 50 if tier == 'quick' else 600
+    nprog = 50 if tier == 'quick' else 400
+    nstruct = 80 if tier == 'quick' else 600
     lines, meta = [], []
     G = Gen(R)
     for pi in range(nprog):
@@ -381,7 +383,7 @@ def boom_assert(x):
 '''
 
 # capture templates: (name, module-level definitions, body, args, note).  The static analysis below (not this
-# table) decides the finding tag.
+# table) describes how a unit uses captured lists (reported with a violation, for diagnosis).
 CAPTURE_SRC = '''
 K_SCALE = 3.0
 D_RO = [1.0, 2.0, 4.0]
@@ -610,13 +612,7 @@ def capture_shape(fn) -> dict:
     return {'captured': sorted(captured), 'writes': bool(captured) and writes, 'returns': bool(captured) and returns}
 
 def classify(shape, kind, caller_mutated):
-    """F7: successive evaluations drift because the function itself writes a captured list;
-    F8: a captured list is handed out (identity shared between results / caller mutation changes later calls)"""
-    if not shape['captured']: return None
-    if kind == 'shares-previous-result' and shape['returns']: return 'F8'
-    if kind == 'drift':
-        if shape['writes']: return 'F7'
-        if shape['returns'] and caller_mutated: return 'F8'
+    """no known finding is listed for C18 (F7 and F8 are repaired): nothing is suppressed"""
     return None
 
 class Unit:
@@ -747,8 +743,8 @@ def mutate_container(R, v):
     l.clear(); return 'clear'
 
 def part_b(rep, R, tier, tmp):
-    nsessions = 2 if tier == 'quick' else 18
-    nops = 320 if tier == 'quick' else 800
+    nsessions = 4 if tier == 'quick' else 18
+    nops = 300 if tier == 'quick' else 800
     from fpy2.interpret import BytecodeInterpreter
     for si in range(nsessions):
         units, mod, twin = build_session(rep, R, tmp, si, n_gen=5, n_struct=4)
@@ -869,7 +865,7 @@ def part_b(rep, R, tier, tmp):
             rep.sample({'part': 'B', 'history_head': history[len(units):len(units) + 8]})
         part_b_model(rep, mod)
 
-# model prediction of the F7 / F8 programs (Lean `boundary` op)
+# model prediction of the programs of the repaired findings F7 / F8 (Lean `boundary` op)
 def part_b_model(rep, mod):
     if rep.cov.get('B_model_done'): return
     rep.cov['B_model_done'] = True
@@ -918,7 +914,7 @@ def _sx_globals(pairs):
 
 def _boundary_line(funcs_sx, globs, ops):
     # the model's claim about the code as it is (`Policy.current` in Fpy/Model/Boundary.lean) is the default;
-    # C18_MODEL_POLICY=fixed asks for the model of the code with /var/tmp/patches/F7.diff + F8.diff applied
+    # C18_MODEL_POLICY=legacy asks for the model of the code before the repairs 20fad08 / 1c6f5b2 (diagnosis only)
     pol = os.environ.get('C18_MODEL_POLICY', '')
     return f'boundary 2000 {pol + " " if pol else ""}({funcs_sx}) {_sx_globals(globs)} (' + ' '.join(ops) + ')'
 
@@ -1063,7 +1059,7 @@ def run(rep, tier, seed):
     rep.cov['rule'] = ('(A) proggen programs forced to write + return their list parameter and shape-specialised programs over random argument structures '
                        '(lists of lists, lists in tuples, tuples in lists; the same Python list passed/stored twice with probability 0/0.5/0.9), 3 argument sets each, '
                        'called twice: deep snapshot (ids, reprs) before/after, list-object disjointness result/arguments and result/previous result, value vs Lean `eval`; '
-                       '(B) sessions of ~45 units x ~320 random operations (eval, other ctx, stochastic ctx with own rng, other args, strategies, raising calls, '
+                       '(B) sessions of ~45 units x ~300 random operations (eval, other ctx, stochastic ctx with own rng, other args, strategies, raising calls, '
                        'caller mutation of results/arguments, same-named twin, second interpreter, gc, re-entrant primitive callback); every re-evaluation judged against R0; '
                        '(C) 4-8 threads x 2-3 iterations x 40 items, switch interval 1e-6, barrier every 10 items, warm and cold compile cache, judged against sequential results; '
                        'distinct = distinct (part, program, arguments, ctx)')
@@ -1071,7 +1067,7 @@ def run(rep, tier, seed):
                         '(schedule_independent is about the model\'s atomic steps lookup|compile|insert|run)',
                         'a Python caller that mutates a module-level list between the definition of a function and its first call is outside the quantifier '
                         '(the capture is taken at first call: counted under notes, not judged)',
-                        'finding tags are decided by a static analysis of the real AST (capture_shape), not by the template table']
+                        'capture_shape (static analysis of the real AST) is diagnostic only: no violation is suppressed']
 
 def replay(rep, data):
     """replays are deterministic re-runs of the recorded seed/tier"""
